@@ -93,6 +93,11 @@ static vector<Variant> buildVariants(bool thorough) {
       if (t.sig) {
         rr.push_back({-100, 100, 0});
         rr.push_back({-50, -10, 5});
+        // all sign combinations of the bounds, and ranges that touch a limit of the type
+        rr.push_back({10, 100, 0});
+        rr.push_back({0, 50, 0});
+        rr.push_back({5, t.maxRaw, 0});
+        rr.push_back({t.minRaw, -5, 0});
         if (t.bits >= 16 && thorough) rr.push_back({-30000, 30000, 0});
         if (t.bits == 32) rr.push_back({-2000000000LL, 2000000000LL, 0});
       } else {
